@@ -17,6 +17,12 @@ def node_violation(n):
     if k in SIZED and r.size is not None and not r.size.ext:
         if k == 'BIT STRING':
             n_ = v[1] if isinstance(v, tuple) and len(v) == 2 else None
+            if n_ is not None and r.base.named_bits:
+                # X.680 22.7: trailing 0 bits may be removed or added to satisfy the constraint
+                data = bytes(v[0])
+                while n_ > 0 and (n_ - 1) // 8 < len(data) and not (data[(n_ - 1) // 8] >> (7 - (n_ - 1) % 8)) & 1:
+                    n_ -= 1
+                n_ = max(n_, r.size.lo or 0)
         else:
             try:
                 n_ = len(v)
